@@ -2,3 +2,14 @@
 #include <string.h>
 /* clang lowers `memcmp(a,b,n) == 0` to bcmp */
 int bcmp(const void *a, const void *b, size_t n) { return memcmp(a, b, n); }
+/* cbmc 6.11 has no model of strstr */
+char *strstr(const char *h, const char *n)
+{
+    if(!*n) return (char *)h;
+    for(; *h; h++) {
+        const char *a = h, *b = n;
+        while(*a && *b && *a == *b) { a++; b++; }
+        if(!*b) return (char *)h;
+    }
+    return 0;
+}
